@@ -224,7 +224,9 @@ class RefGen(histgen.HistGen):
       plain = [c for c in meta.data_cols(t['id']) if c['type'] in ('Text', 'Int')]
       if mode == 'deps' and plain:
         info['recalcWhen'] = 0
-        info['recalcDeps'] = ['L'] + [c['id'] for c in r.sample(plain, r.randint(1, min(2, len(plain))))]
+        # (a plain list: AddColumn does not decode its col_info; an encoded ['L', ...] would be stored as alt text
+        # and then break Engine._maybe_update_trigger_dependencies for every later bundle)
+        info['recalcDeps'] = [c['id'] for c in r.sample(plain, r.randint(1, min(2, len(plain))))]
       elif mode == 'never':
         info['recalcWhen'] = 1
       elif mode == 'manual':
